@@ -436,6 +436,12 @@ class Runner:
             # the other context in this process is in the middle of something: a CON request whose handler is slow
             self.ctx2_busy_since = self.loop.now_ticks()
             self.net2.inject(W.build("CON", 1, 0x7778, b"\x0a", [(W.URI_PATH, b"slow")], b""), netsim.peer(4))
+            # ... and a request of its own that is outstanding (a NON request nobody has answered yet)
+            import aiocoap
+            m2 = aiocoap.Message(code=aiocoap.GET, mtype=aiocoap.NON, payload=b"ctx2")
+            m2.remote = netsim.remote_for(self.net2, netsim.peer(6))
+            self.ctx2_own = self.ctx2.request(m2, handle_blockwise=False).response
+            self.ctx2_own.add_done_callback(lambda f: f.cancelled() or f.exception())
         self.shut = True
 
         again = self.shutdown_task is not None           # a second X: the application calls shutdown() once more
@@ -548,7 +554,8 @@ class Runner:
 
     async def second_context_works(self):
         """another context in the same loop still serves a request after the first was shut down"""
-        return await probe_context(self.loop, self.ctx2, self.net2, getattr(self, "ctx2_busy_since", None))
+        return await probe_context(self.loop, self.ctx2, self.net2, getattr(self, "ctx2_busy_since", None),
+                                   getattr(self, "ctx2_own", None))
 
     def state_summary(self):
         """the tables of MessageManager and TokenManager, rendered like the model's `stateStr`;
@@ -588,7 +595,26 @@ class ProbeSite:
         pipe.add_response(aiocoap.Message(code=aiocoap.CONTENT, payload=b"42"), is_last=True)
 
 
-async def probe_context(loop, ctx, net, busy_since=None):
+async def probe_context(loop, ctx, net, busy_since=None, own=None):
+    if own is not None:
+        # the other context's own outstanding request is still outstanding, and is completed by its answer
+        for _ in range(5):
+            await asyncio.sleep(0)
+        if own.done():
+            st = "cancelled" if own.cancelled() else type(own.exception()).__name__ if own.exception() else "a response"
+            await ctx.shutdown()
+            return f"the other context's own outstanding request ended with {st} when the first context was shut down"
+        reqs = [W.parse(b) for (_, _, b) in net.sent]
+        reqs = [p for p in reqs if p["payload"] == b"ctx2"]
+        if len(reqs) != 1:
+            await ctx.shutdown()
+            return f"harness: the other context's request was sent {len(reqs)} times"
+        net.inject(W.build("NON", 69, 0x7779, reqs[0]["token"], [], b"ok"), netsim.peer(6))
+        for _ in range(5):
+            await asyncio.sleep(0)
+        if not own.done() or own.cancelled() or own.exception() is not None or own.result().payload != b"ok":
+            await ctx.shutdown()
+            return "the other context's own request was not completed by its response after the first context was shut down"
     if busy_since is not None:
         # the other context was handed a CON request with a slow handler just before the first context shut down:
         # its empty ACK is due EMPTY_ACK_DELAY after the arrival, whatever the first context did to its own timers
